@@ -24,6 +24,7 @@ if [ ${#DEMOS[@]} -eq 0 ]; then
 fi
 DEMOCMD=$(python3 -c "import json;print(json.load(open('$SRC/meta.json')).get('demo_cmd',''))")
 DEMOCMD=${DEMOCMD#*; }
+DEMOCMD=$(echo "$DEMOCMD" | sed -E "s/^(cp [^&]*&& *)+//")
 echo "$ID demo files: ${DEMOS[*]} cmd: $DEMOCMD"
 (cd $S/mut && go build ./... && go vet ./... >/dev/null 2>&1) || { echo "$ID: BUILD/VET-FAIL"; exit 1; }
 (cd $S/mut && go test -vet=off -count=1 ./... >$S/suite.log 2>&1) || { echo "$ID: SUITE-FAILS-WITH-MUTANT"; tail -5 $S/suite.log; exit 1; }
